@@ -82,6 +82,7 @@ type SetSpec struct {
 	UpdRev      string
 	Collisions  int32
 	NClaims     int
+	ClaimNS     bool // first claim template carries metadata.namespace
 	ExtraAnn    map[string]string
 }
 
@@ -154,6 +155,9 @@ func (s *SetSpec) Build() *apps.StatefulSet {
 	}
 	set.Spec.Template = baseTemplate(s.Name, s.Tmpl, s.NClaims)
 	set.Spec.VolumeClaimTemplates = claimTemplates(s.NClaims)
+	if s.ClaimNS && s.NClaims > 0 {
+		set.Spec.VolumeClaimTemplates[0].Namespace = "elsewhere"
+	}
 	set.Spec.PodManagementPolicy = apps.PodManagementPolicyType(s.Policy)
 	set.Spec.UpdateStrategy.Type = apps.StatefulSetUpdateStrategyType(s.Strat)
 	if s.RuBlock {
